@@ -123,6 +123,96 @@ def _lump_stores(run, outname):
     return out, others
 
 
+def _total_over_nodes(run, outname, col, t):
+    """Sum over all nodes of what is stored into column `col` of the load array, as an
+    expression: range stores contribute SIG(value), single-row stores the value; the
+    slice identities SIG(x[:-1]) = SIG(x) - x[-1], SIG(x[1:]) = SIG(x) - x[0] are applied."""
+    from ..symx import SIG, SUB
+
+    target_obj = None
+    for e in run.events:
+        if e.kind == "store" and e.d.get("cell") == ("out", outname) and not e.d.get("csubs"):
+            v = e.d.get("val")
+            if v is not None and v.obj is not None:
+                target_obj = v.obj
+    total = sp.Integer(0)
+    n = 0
+    for e in run.events:
+        if e.kind != "store" or e.d.get("obj") not in (target_obj, ("out", outname)):
+            continue
+        cs = (e.d.get("csubs") or ("",))[0].replace(" ", "")
+        parts = cs.split(",")
+        if len(parts) != 2 or parts[1] != str(col):
+            continue
+        cval = _contrib(run, e)
+        if e.d.get("op") == "=" and cval is None:
+            v = e.d.get("val")
+            cval = v.dom.get("SYMX") if v is not None else None
+        if cval is None:
+            return None, n
+        n += 1
+        total = total + (SIG(cval) if ":" in parts[0] else cval)
+    if n == 0:
+        return None, 0
+
+    def rw(x):
+        if x.func == SIG and x.args[0].func == SUB:
+            inner, sl = x.args[0].args[0], str(x.args[0].args[1])
+            if sl == ":-1":
+                return SIG(inner) - SUB(inner, sp.Symbol("-1"))
+            if sl == "1:":
+                return SIG(inner) - SUB(inner, sp.Symbol("0"))
+        if not x.args:
+            return x
+        return x.func(*[rw(a_) for a_ in x.args])
+
+    from ..symx import lin_expand
+
+    tot = lin_expand(total, t)
+    # distribute SIG / SUB over sums of slices of one expression
+    def dist(x):
+        if x.func == SIG and x.args[0].func == sp.Add:
+            return sp.Add(*[dist(SIG(a_)) for a_ in x.args[0].args])
+        if x.func == SIG and x.args[0].func == sp.Mul:
+            num = [f for f in x.args[0].args if f.is_number]
+            rest = [f for f in x.args[0].args if not f.is_number]
+            if num:
+                return sp.Mul(*num) * dist(SIG(sp.Mul(*rest)))
+        if not x.args:
+            return x
+        return x.func(*[dist(a_) for a_ in x.args])
+
+    return sp.expand(rw(dist(sp.expand(tot)))), n
+
+
+def w2c(chk, repo):
+    chk.rule("W2c", "conservation of the distributed weight whatever the lumping idiom: the z forces stored to the load array, summed over all nodes, equal minus the total weight of the elements (structure: sum of element_mass g n; fuel: (fuel_mass + Wf_reserve) g n, halved for a half model)", min_decided=2)
+    from ..symx import SIG
+
+    g = grav(repo)
+    for rel, cn, outname in ((S + "wing_weight_loads.py", "StructureWeightLoads", "struct_weight_loads"), (S + "fuel_loads.py", "FuelLoads", "fuel_weight_loads")):
+        c, runs = _runs(repo, rel, cn)
+        for r in runs:
+            t = r.domains["SYMX"].table
+            a = Acc(t)
+            tag = sig_txt(r.sigma)
+            key = "%s %s total z force" % (cn, tag)
+            tot, n = _total_over_nodes(r, outname, 2, t)
+            nlf = a.s("load_factor")
+            if tot is None or nlf is None:
+                chk.undecided("W2c", key, c.where, "z-force stores not extracted (%d)" % n, algebraic=True)
+                continue
+            if cn == "StructureWeightLoads":
+                em = a.s("element_mass")
+                want = -SIG(em) * g * nlf if em is not None else None
+            else:
+                fm = a.s("fuel_mass")
+                res = [s_ for s_ in tot.free_symbols if s_.name.startswith("cfg:") and "Wf_reserve" in s_.name]
+                sym = _flag(r.sigma, "symmetry")
+                want = -(fm + res[0]) * g * nlf * (sp.Rational(1, 2) if sym else 1) if (fm is not None and res and sym is not None) else None
+            check_identity(chk, "W2c", key, c.where, tot, want, t, "sum over nodes of the z forces = -(total weight)")
+
+
 def w2(chk, repo):
     chk.rule("W2", "distributed element loads are lumped half/half on the two end nodes: the contributions stored to rows [:-1] and [1:] of the z-force column are equal and sum (over nodes and elements) to minus the total weight (element_mass g n per element for the structure; (fuel_mass + Wf_reserve) g n, halved under symmetry, for the fuel), nothing is stored to the x/y force or torsion columns, and the consistent end moments are equal and opposite", min_decided=6)
     g = grav(repo)
@@ -436,6 +526,7 @@ def run(chk, repo, tier):
 
     w1(chk, repo)
     w2(chk, repo)
+    w2c(chk, repo)
     w3(chk, repo)
     w4(chk, repo)
     w5(chk, repo)
